@@ -1469,6 +1469,11 @@ impl Worterbuch {
     #[instrument(skip(self))]
     pub(crate) async fn apply_last_wills(&mut self, last_wills: LastWill) {
         for lw in last_wills {
+            if lw.key == SYSTEM_TOPIC_ROOT || lw.key.starts_with(SYSTEM_TOPIC_ROOT_PREFIX) {
+                // clients cannot write to $SYS, so their last wills must not either when they are
+                // applied on their behalf with the server's own privileges
+                continue;
+            }
             self.set(lw.key, lw.value, INTERNAL_CLIENT_ID, true)
                 .await
                 .ok();
